@@ -1221,7 +1221,7 @@ func runE2E(c *hx.Ctx, rng *hx.Rng) {
 	// the other xprotocols through their own proxy filter and codec (kind e2ex)
 	for _, wire := range e2eWires[1:] {
 		var ps []*e2ePlan
-		for i := 0; i < c.N(70, 450); i++ {
+		for i := 0; i < c.N(70, 320); i++ {
 			ps = append(ps, e2eGenPlanFor(rng.Fork(), wire))
 		}
 		runE2EWire(c, wire, ps, 0)
